@@ -169,16 +169,25 @@ def run(tier, seed, open_findings):
                     sfails.append(dict(case=dict(payload=pname, role='schema-of-document-api', cls=api), observed=dict(outcome=outc, secret_opened=bool(_events)), required='refused, nothing fetched'))
         out.append(result('C13.schema_roles', '4 payloads x (main schema, included schema) x 2 classes, and 3 payloads x 4 package-level functions that build the schema from a path, with defuse=always', m, sfails, exhaustive=True, samples=[dict(payload='external', role='included-schema')]))
         # large prolog on a non-seekable stream (the first start tag lies beyond the 64 KiB look-ahead buffer)
-        big = '<?xml version="1.0"?><!--' + 'c' * 70000 + '--><r>ok</r>'
+        from xmlschema.exceptions import XMLResourceOSError
+        from xml.etree import ElementTree as PET
+        bigs = {'comment-70k': '<?xml version="1.0"?><!--' + 'c' * 70000 + '--><r>ok</r>',
+                # the root start tag ends just below 64 KiB and 3 000 children follow: what is parsed after the defusing pass must be the whole document
+                'late-root-many-children': '<?xml version="1.0"?><!--' + 'c' * 65440 + '--><r>' + ''.join(f'<c>{i}</c>' for i in range(3000)) + '</r>',
+                'comment-64k-exact': '<?xml version="1.0"?><!--' + 'c' * (65536 - 40) + '--><r><c>1</c><c>2</c></r>'}
         lf = []
-        try:
-            r = xmlschema.XMLResource(NonSeek(io.BytesIO(big.encode())), defuse='always'); ok = r.root.text == 'ok'
-        except XMLSchemaException as e:
-            ok = False; err = f'{type(e).__name__}: {str(e)[:80]}'
-        if not ok:
-            if 'C13-nonseekable-large-prolog' in open_findings: known['C13-nonseekable-large-prolog'] = 1
-            else: lf.append(dict(case=dict(prolog_bytes=70000, source='nonseekable'), observed=err, required='parsed to the same tree as without defusing'))
-        out.append(result('C13.large_prolog_nonseekable', 'one clean document with a 70 kB comment prolog on a non-seekable binary stream, defuse=always', 1, lf, exhaustive=True, known=known,
+        for bname, big in bigs.items():
+            want = PET.tostring(xmlschema.XMLResource(big, defuse='never').root)
+            try:
+                r = xmlschema.XMLResource(NonSeek(io.BytesIO(big.encode())), defuse='always'); outc = 'same tree' if PET.tostring(r.root) == want else f'another tree ({len(r.root)} children for {len(PET.fromstring(want))})'
+            except XMLResourceOSError as e: outc = 'refused: rewind not possible'
+            except XMLSchemaException as e: outc = f'{type(e).__name__}: {str(e)[:80]}'
+            if outc == 'same tree': continue
+            # listed finding: the look-ahead buffer is 64 KiB; a stream that cannot be rewound further is REFUSED with the library's OS error - anything else (a parse
+            # error, another tree) means the parser did not see the bytes that were checked
+            if outc.startswith('refused') and 'C13-nonseekable-large-prolog' in open_findings: known['C13-nonseekable-large-prolog'] = known.get('C13-nonseekable-large-prolog', 0) + 1
+            else: lf.append(dict(case=dict(prolog_bytes=len(big), source='nonseekable', doc=bname), observed=outc, required='parsed to the same tree as without defusing'))
+        out.append(result('C13.large_prolog_nonseekable', f'{len(bigs)} clean documents whose root start tag lies around / beyond the 64 KiB look-ahead, on a non-seekable binary stream, defuse=always: the same tree as without defusing', len(bigs), lf, exhaustive=True, known=known,
                           samples=[dict(prolog_bytes=70000)]))
         return out
     finally:
@@ -187,7 +196,7 @@ def run(tier, seed, open_findings):
 
 
 def replay(check_name, case):
-    if 'prolog_bytes' in case:
+    if 'prolog_bytes' in case and 'doc' not in case:
         import xmlschema
         big = '<?xml version="1.0"?><!--' + 'c' * case['prolog_bytes'] + '--><r>ok</r>'
         try: r = xmlschema.XMLResource(NonSeek(io.BytesIO(big.encode())), defuse='always'); return dict(ok=r.root.text == 'ok', observed='parsed', required='parsed')
